@@ -255,11 +255,11 @@ class RL4COEnvBase(EnvBase, metaclass=abc.ABCMeta):
                 if isinstance(f, Iterable) and not isinstance(f, str):
                     names = getattr(self, f"{phase}_dataloader_names")
                     return {
-                        name: self.dataset_cls(self.load_data(_f, batch_size))
+                        name: self.dataset_cls(self.load_data(_f, batch_size=batch_size))
                         for name, _f in zip(names, f)
                     }
                 else:
-                    td = self.load_data(f, batch_size)
+                    td = self.load_data(f, batch_size=batch_size)
             except FileNotFoundError:
                 log.error(
                     f"Provided file name {f} not found. Make sure to provide a file in the right path first or "
